@@ -4,7 +4,7 @@
    parse_expr_list.  The items are parsed by parseExprWSS; what is proved here is the list
    step: brackets, separators, and the newline / indentation / comment tokens between items. *)
 From Coq Require Import List String NArith ZArith Bool Arith Lia.
-From EvyV Require Import Base FmtAst Format Pratt PrattProofs FormatParse FormatParseProofs.
+From EvyV Require Import Base FmtAst Format FormatProofs Pratt PrattProofs FormatParse FormatParseProofs.
 From EvyV.Gen Require Import Prec.
 Import ListNotations.
 Local Open Scope nat_scope.
@@ -276,3 +276,142 @@ Section Lists.
       rewrite Wf. exact Hstop.
   Qed.
 End Lists.
+
+(* ---------- the shape of what formatArrayLiteral writes ---------- *)
+Definition ind_tok (b : bool) : list token := if b then [mk T_WS] else [].
+
+(* (leading run, items with the run that follows each); [closing] is what is written before "]" *)
+Fixpoint segs_of (closing : list token) (multi : list str) (els : list (list token))
+  : list token * list (list token * list token) :=
+  match multi with
+  | [] => (closing, [])
+  | m :: r =>
+      if item_is_el m then
+        let '(run, ss) := segs_of closing r (tl els) in
+        ([], (hd [] els, ind_tok (next_not_nl r) ++ run) :: ss)
+      else
+        let '(run, ss) := segs_of closing r els in
+        (toks_of_pieces (raw_item m) ++ ind_tok (next_not_nl r) ++ run, ss)
+  end.
+
+Lemma arr_loop_toks lvl closingP multi : forall elsP,
+  (List.length (filter item_is_el multi) <= List.length elsP) ->
+  toks_of_pieces (arr_loop (S lvl) multi elsP ++ closingP) =
+  (let '(lead, ss) := segs_of (toks_of_pieces closingP) multi (map toks_of_pieces elsP) in lead ++ seg_toks ss).
+Proof.
+  induction multi as [|m r IH]; intros elsP Hlen.
+  - cbn [arr_loop app segs_of seg_toks flat_map]. rewrite app_nil_r. reflexivity.
+  - cbn [arr_loop segs_of]. cbn [filter] in Hlen. destruct (item_is_el m) eqn:Eel.
+    + destruct elsP as [|e elsP']; [simpl in Hlen; lia|]. cbn [map tl hd].
+      specialize (IH elsP'). destruct (segs_of (toks_of_pieces closingP) r (map toks_of_pieces elsP')) as [run ss] eqn:Es.
+      cbn [app seg_toks flat_map fst snd]. fold (seg_toks ss).
+      rewrite <- !app_assoc. rewrite (toks_app e), (toks_app (if next_not_nl r then [Sp] else [])). rewrite IH by (simpl in Hlen; lia).
+      destruct (next_not_nl r); cbn [ind_tok toks_of_pieces flat_map tok_of_piece app]; rewrite <- ?app_assoc; reflexivity.
+    + specialize (IH elsP). destruct (segs_of (toks_of_pieces closingP) r (map toks_of_pieces elsP)) as [run ss] eqn:Es.
+      rewrite <- !app_assoc. rewrite (toks_app (raw_item m)), (toks_app (if next_not_nl r then [Ind (S lvl)] else [])). rewrite IH by exact Hlen.
+      destruct (next_not_nl r); cbn [ind_tok toks_of_pieces flat_map tok_of_piece app]; rewrite <- ?app_assoc; reflexivity.
+Qed.
+
+Lemma raw_item_wsrun m : item_ws_ok m = true -> wsrun (toks_of_pieces (raw_item m)) = true.
+Proof.
+  unfold item_ws_ok, raw_item. intro H. destruct (item_is_nl m); [reflexivity|].
+  simpl in H. apply andb_true_iff in H as [He _]. rewrite He. reflexivity.
+Qed.
+
+Lemma raw_item_nonempty m : toks_of_pieces (raw_item m) <> [].
+Proof. unfold raw_item. destruct (item_is_nl m); [discriminate|]. destruct (ends_with_nl m); discriminate. Qed.
+
+Lemma ind_tok_wsrun b : wsrun (ind_tok b) = true.
+Proof. destruct b; reflexivity. Qed.
+
+Lemma segs_of_ok closing multi : forall els,
+  wsrun closing = true ->
+  Forall (fun m => item_is_el m = true \/ item_ws_ok m = true) multi ->
+  let '(lead, ss) := segs_of closing multi els in
+  wsrun lead = true /\ seps_ok ss /\
+  (* a run that follows an item and precedes another item is not empty *)
+  (ss <> [] -> match multi with m :: _ => item_is_el m = false -> lead <> [] | [] => True end).
+Proof.
+  induction multi as [|m r IH]; intros els Hc Hm.
+  - cbn [segs_of]. repeat split; auto.
+  - inversion Hm as [|? ? Hm1 Hm2]; subst. cbn [segs_of]. destruct (item_is_el m) eqn:Eel.
+    + specialize (IH (tl els) Hc Hm2). destruct (segs_of closing r (tl els)) as [run ss] eqn:Es.
+      destruct IH as (I1 & I2 & I3). split; [reflexivity|]. split.
+      * cbn [seps_ok]. split; [apply wsrun_app; [apply ind_tok_wsrun | exact I1]|]. split; [|exact I2].
+        intros Hne Hsep. apply app_eq_nil in Hsep as [Hi Hrun].
+        destruct r as [|m2 r2]; [cbn [segs_of] in Es; inversion Es; subst; contradiction|].
+        cbn [next_not_nl] in Hi. destruct (item_is_nl m2) eqn:En; [|discriminate Hi].
+        apply (I3 Hne); [|exact Hrun]. apply item_nl_not_el, En.
+      * intros _ H. discriminate H.
+    + destruct Hm1 as [Hm1|Hm1]; [congruence|].
+      specialize (IH els Hc Hm2). destruct (segs_of closing r els) as [run ss].
+      destruct IH as (I1 & I2 & I3). split; [|split; [exact I2|]].
+      * apply wsrun_app; [apply raw_item_wsrun, Hm1|]. apply wsrun_app; [apply ind_tok_wsrun | exact I1].
+      * intros _ _ H. apply app_eq_nil in H as [H _]. exact (raw_item_nonempty m H).
+Qed.
+
+Lemma segs_of_items closing multi : forall els,
+  List.length (filter item_is_el multi) = List.length els ->
+  map fst (snd (segs_of closing multi els)) = els.
+Proof.
+  induction multi as [|m r IH]; intros els Hlen.
+  - destruct els; [reflexivity | discriminate].
+  - cbn [segs_of]. cbn [filter] in Hlen. destruct (item_is_el m).
+    + destruct els as [|e els']; [discriminate|]. cbn [tl hd]. specialize (IH els').
+      destruct (segs_of closing r els') as [run ss]. cbn [snd map fst] in *. f_equal. apply IH. simpl in Hlen. lia.
+    + specialize (IH els Hlen). destruct (segs_of closing r els) as [run ss]. exact IH.
+Qed.
+
+Section ArrayExpr.
+  Variable E : env.
+  Hypothesis NT : no_tyerr E.
+  Variable fx : fixes.
+
+  (* an array literal whose elements round-trip as list items round-trips as a whole *)
+  Theorem array_expr_rt w lvl items els :
+    wf_expr (FArr items els) = true ->
+    Forall (fun e => RT E true (toks_of_pieces (fmt_expr fx (S lvl) e)) (fexpr_tree e)
+                     /\ head_ok (toks_of_pieces (fmt_expr fx (S lvl) e))) els ->
+    RT E w (toks_of_pieces (fmt_expr fx lvl (FArr items els))) (fexpr_tree (FArr items els)).
+  Proof.
+    intros Hwf Hels. cbn [wf_expr] in Hwf. apply andb_true_iff in Hwf as [Hwf _]. apply andb_true_iff in Hwf as [Hit Hlen].
+    apply Nat.eqb_eq in Hlen. cbn [fmt_expr fexpr_tree]. unfold fmt_array.
+    set (multi := format_multiline items).
+    assert (Hit' : Forall (fun m => item_is_el m = true \/ item_ws_ok m = true) multi).
+    { apply fm_loop_Forall. apply forallb_Forall in Hit. eapply Forall_impl; [|exact Hit]. intros m Hm. simpl in Hm. apply orb_true_iff in Hm. exact Hm. }
+    assert (Hlen' : List.length (filter item_is_el multi) = List.length (map (fmt_expr fx (S lvl)) els)).
+    { unfold multi, format_multiline. rewrite fm_loop_filter by apply item_nl_not_el. rewrite map_length. exact Hlen. }
+    destruct multi as [|m0 multi'] eqn:Em.
+    - (* "[]" *)
+      destruct els as [|e els']; [|simpl in Hlen'; discriminate].
+      change (toks_of_pieces [T k_lbr; T k_rbr]) with (mk T_LBRACKET :: [] ++ seg_toks [] ++ [mk T_RBRACKET]).
+      apply (array_literal_rt E NT w [] [] []); [reflexivity | constructor | exact I].
+    - rewrite <- Em in *. clear Em.
+      set (closingP := if (if fix_br fx then last_is_nl_or_comment multi else last_is_nl multi) then [Ind lvl] else []).
+      set (elsP := map (fmt_expr fx (S lvl)) els) in *.
+      assert (Hshape : toks_of_pieces ([T k_lbr] ++ (if first_is_comment multi then [Sp] else []) ++ arr_loop (S lvl) multi elsP ++ closingP ++ [T k_rbr])
+                       = mk T_LBRACKET :: (ind_tok (first_is_comment multi) ++ fst (segs_of (toks_of_pieces closingP) multi (map toks_of_pieces elsP)))
+                         ++ seg_toks (snd (segs_of (toks_of_pieces closingP) multi (map toks_of_pieces elsP))) ++ [mk T_RBRACKET]).
+      { rewrite app_assoc with (l := arr_loop (S lvl) multi elsP). rewrite !toks_app.
+        rewrite <- (toks_app (arr_loop (S lvl) multi elsP) closingP). rewrite (arr_loop_toks lvl closingP multi elsP) by lia.
+        destruct (segs_of (toks_of_pieces closingP) multi (map toks_of_pieces elsP)) as [lead ss]. cbn [fst snd].
+        destruct (first_is_comment multi); cbn [ind_tok toks_of_pieces flat_map tok_of_piece app]; rewrite <- ?app_assoc; reflexivity. }
+      rewrite Hshape.
+      assert (Hcl : wsrun (toks_of_pieces closingP) = true).
+      { unfold closingP. destruct (if fix_br fx then _ else _); [destruct lvl|]; reflexivity. }
+      pose proof (segs_of_ok (toks_of_pieces closingP) multi (map toks_of_pieces elsP) Hcl Hit') as Hok.
+      pose proof (segs_of_items (toks_of_pieces closingP) multi (map toks_of_pieces elsP)) as Hitems.
+      rewrite map_length in Hitems. specialize (Hitems Hlen').
+      destruct (segs_of (toks_of_pieces closingP) multi (map toks_of_pieces elsP)) as [lead ss]. cbn [fst snd] in *.
+      destruct Hok as (O1 & O2 & _).
+      apply (array_literal_rt E NT w _ ss (map fexpr_tree els)).
+      + apply wsrun_app; [apply ind_tok_wsrun | exact O1].
+      + (* the items are the formatted elements, in order *)
+        clear - Hitems Hels. unfold elsP in Hitems. revert ss Hitems.
+        induction els as [|e els IH]; intros ss Hitems.
+        * destruct ss; [constructor | discriminate].
+        * destruct ss as [|[it sep] ss']; [discriminate|]. cbn [map fst] in Hitems. injection Hitems as Hi Hrest.
+          inversion Hels as [|? ? [H1 H2] Hels']; subst. constructor; [split; assumption|]. apply IH; auto.
+      + exact O2.
+  Qed.
+End ArrayExpr.
